@@ -766,25 +766,34 @@ def State.step (s : State) (op : Op) (e : StepEnv) : State × Out :=
   | .rcvBytes n now => (s.receivedBytes e.env n now, {})
   | .rcvPacket lvl now => (s.receivedPacket e.env lvl now, {})
 
-/-- outcome of a history: final state, all callbacks, all silently discarded frames (ghost), all packet
-    numbers recorded as skipped (ghost), and whether no operation panicked (a Go panic ends the connection:
-    the history stops there) -/
+/-- the frames an operation hands to loss recovery -/
+def Op.handed : Op → List Frame
+  | .send _ _ _ _ _ _ frames sframes => frames ++ sframes
+  | _ => []
+
+/-- outcome of a history: final state, all frames handed over (ghost), all callbacks, all silently discarded frames (ghost), all packet
+    numbers recorded as skipped (ghost), and the result of the last operation executed.  The history stops at
+    the first operation that does not return normally: the connection closes on every error these methods
+    return, and a Go panic ends it as well. -/
 structure RunRes where
   s : State
+  handed : List Frame := []
   evs : List Ev := []
   disc : List Frame := []
   skipped : List PN := []
-  ok : Bool := true
+  res : Res := .ok
 deriving Repr
 
 /-- run a history of operations, each with its environment inputs -/
 def State.run (s : State) : List (Op × StepEnv) → RunRes
   | [] => { s := s }
   | (op, e) :: rest =>
-    let r := s.step op e
-    if r.2.res.isPanic then { s := r.1, evs := r.2.evs, disc := r.2.disc, skipped := r.2.skipped, ok := false }
-    else
-      let t := State.run r.1 rest
-      { s := t.s, evs := r.2.evs ++ t.evs, disc := r.2.disc ++ t.disc, skipped := r.2.skipped ++ t.skipped, ok := t.ok }
+    match (s.step op e).2.res with
+    | .ok =>
+      let t := State.run (s.step op e).1 rest
+      { s := t.s, handed := op.handed ++ t.handed, evs := (s.step op e).2.evs ++ t.evs, disc := (s.step op e).2.disc ++ t.disc,
+        skipped := (s.step op e).2.skipped ++ t.skipped, res := t.res }
+    | x => { s := (s.step op e).1, handed := op.handed, evs := (s.step op e).2.evs, disc := (s.step op e).2.disc,
+             skipped := (s.step op e).2.skipped, res := x }
 
 end Uquic.Model.Sent
